@@ -77,6 +77,7 @@ def run_check(tier, seed):
     cases += [c for c in S.gen_config_cases(rng, len(cases) + 100000) if c['wf']['op'] != 26 and c['remap'] == (0, 0)]
     cases += [c for c in S.gen_virtio_seg_cases(rng, len(cases) + 200000)]
     cases += S.gen_direrr_cases(rng, len(cases) + 300000)
+    cases += S.gen_errkind_cases(rng, len(cases) + 400000)
     # directory sweep: every requested size within 8 bytes of every entry boundary (padded and unpadded), plain and plus
     sweep = []
     for op in (28, 44):
